@@ -1,8 +1,142 @@
-(* C09 - placeholder while the proofs are being built *)
-From Coq Require Import ZArith NArith QArith List Bool.
-From NV Require Import Common.Outcome Dict.KeyEq Dict.KeyHash Dict.DictMap.
+(* C09 - Dictionaries are finite maps keyed by value equality.
+   Only statements here; every proof is `exact <lemma>` into Dict/*_proofs.v.
+
+   key_eq      = Eq for ObjKey (total_eq_of_keys);  key_hash H = the sequence of Hasher writes of Hash for ObjKey,
+                 H being the inner per-entry hasher of nested dictionaries (any function);
+   wf_key      = what the representations guarantee: BigRational in lowest terms, float bit fields in range,
+                 nested dictionaries with pairwise unequal keys (the HashMap invariant);
+   hm_slot h   = "a HashMap finds stored key k' for probe k iff they are in the same bucket (equal write sequences
+                 under h) and Eq";  slot key_eq = the specification: a finite map on ==-classes. *)
+From Coq Require Import ZArith NArith QArith List Bool Permutation.
+From NV Require Import Common.Outcome Dict.KeyEq Dict.KeyHash Dict.DictMap
+  Dict.Num_proofs Dict.KeyEq_proofs Dict.DictMap_proofs.
 Import ListNotations.
 
-Theorem C09_placeholder : key_eq KNull KNull = true.
-Proof. reflexivity. Qed.
-Print Assumptions C09_placeholder.
+(* == on keys is an equivalence relation (NaN equal to itself), at every nesting depth *)
+Theorem C09_key_eq_equivalence :
+  (forall a, wf_key a -> key_eq a a = true) /\
+  (forall a b, wf_key a -> wf_key b -> key_eq a b = true -> key_eq b a = true) /\
+  (forall a b c, wf_key a -> wf_key b -> wf_key c -> key_eq a b = true -> key_eq b c = true -> key_eq a c = true).
+Proof. exact (conj key_eq_refl (conj key_eq_sym key_eq_trans)). Qed.
+Print Assumptions C09_key_eq_equivalence.
+
+(* numbers of any level are equal as keys exactly when they have the same exact value (real and imaginary part:
+   an infinity or a rational in lowest terms), all NaN-containing numbers forming one class *)
+Theorem C09_numeric_equality_is_exact_value : forall a b : num,
+  num_total_eq a b = true <-> ncls_of a = ncls_of b.
+Proof. exact num_total_eq_cls. Qed.
+Print Assumptions C09_numeric_equality_is_exact_value.
+
+(* equal keys make the same sequence of Hasher writes, whatever the inner hasher: they select the same bucket *)
+Theorem C09_hash_coherent : forall (H : list token -> N) (a b : key),
+  wf_key a -> wf_key b -> key_eq a b = true -> key_hash H a = key_hash H b.
+Proof. exact hash_coherent. Qed.
+Print Assumptions C09_hash_coherent.
+
+(* finding F5: the hash before repair 8f04d9f was not coherent (2 vs 4/2, 1/2 vs 0.5, 1 vs 1+0i, NaN vs NaN+1i) *)
+Theorem C09_old_hash_refuted :
+  (num_total_eq (NInt 2) (NRat (2 # 1)) = true /\ old_hash_num (NInt 2) <> old_hash_num (NRat (2 # 1))) /\
+  (num_total_eq (NRat (1 # 2)) (NFloat f_half) = true /\ old_hash_num (NRat (1 # 2)) <> old_hash_num (NFloat f_half)) /\
+  (num_total_eq (NInt 1) (NComplex f_one f64_zero) = true /\ old_hash_num (NInt 1) <> old_hash_num (NComplex f_one f64_zero)) /\
+  (num_total_eq (NFloat f_nan) (NComplex f_nan f_one) = true /\ old_hash_num (NFloat f_nan) <> old_hash_num (NComplex f_nan f_one)).
+Proof. exact old_hash_num_refuted. Qed.
+Print Assumptions C09_old_hash_refuted.
+
+(* the hash of a dictionary used as a key does not depend on the order of its entries *)
+Theorem C09_nested_dict_hash_order_independent : forall (H : list token -> N) (d d' : list (key * key)),
+  Permutation d d' -> key_hash H (KDict d) = key_hash H (KDict d').
+Proof. exact dict_hash_order_independent. Qed.
+Print Assumptions C09_nested_dict_hash_order_independent.
+
+(* every history of dictionary operations (d[k], !?, in, len, d[k] = v, d[k] += v with and without default, remove,
+   |., -., insert/|.., ||, ||+, &&, --, == ; literals and dict() are from_pairs) gives the same observations and the same
+   final dictionary on the hash-bucket model as on the finite map keyed by ==-classes *)
+Theorem C09_dict_refines_map : forall (H : list token -> N) (V : Type) (vnull : V) (vadd : V -> V -> outcome V)
+    (veq : V -> V -> bool) (d : dict V) (ops : list (op V)),
+  wf_store (fst d) -> Forall wf_op ops ->
+  run vnull vadd veq (hm_slot (key_hash H)) d ops = run vnull vadd veq key_eq d ops.
+Proof. exact dict_refines_map. Qed.
+Print Assumptions C09_dict_refines_map.
+
+(* the same for ANY hash function that is coherent with ==, with no condition on the keys *)
+Theorem C09_dict_refines_map_under_coherence : forall (hash : key -> list token),
+  (forall a b, key_eq a b = true -> hash a = hash b) ->
+  forall (V : Type) (vnull : V) (vadd : V -> V -> outcome V) (veq : V -> V -> bool) (d : dict V) (ops : list (op V)),
+  run vnull vadd veq (hm_slot hash) d ops = run vnull vadd veq key_eq d ops.
+Proof. exact dict_refines_map_coherent. Qed.
+Print Assumptions C09_dict_refines_map_under_coherence.
+
+(* unique, set, count_distinct, frequencies, group_all *)
+Theorem C09_lib_refines_map : forall (H : list token -> N) (l : list key), Forall wf_key l ->
+  let slot := hm_slot (key_hash H) in
+  uniqued slot l = uniqued key_eq l /\
+  set_of slot l = set_of key_eq l /\
+  count_distinct slot l = count_distinct key_eq l /\
+  frequencies slot l = frequencies key_eq l /\
+  group_all slot (fun k => k) l = group_all key_eq (fun k => k) l.
+Proof. exact lib_refines_map. Qed.
+Print Assumptions C09_lib_refines_map.
+
+(* memoize: a call whose arguments are == to those of an earlier call returns the stored result *)
+Theorem C09_memo_refines_map : forall (H : list token -> N) (R : Type) (f : list key -> R) (calls : list (list key)),
+  (forall args, In args calls -> Forall wf_key args) ->
+  memo_calls (hm_slot (key_hash H)) f calls [] = memo_calls key_eq f calls [].
+Proof. exact memo_refines_map. Qed.
+Print Assumptions C09_memo_refines_map.
+
+(* two keys that compare equal address the same entry: reads and removals coincide; a write through either changes the
+   same entry (which keeps its stored key); only a write of a new key stores the representative it was given *)
+Theorem C09_equal_keys_same_entry : forall (H : list token -> N) (V : Type) (s : store V) (k1 k2 : key),
+  wf_store s -> wf_key k1 -> wf_key k2 -> key_eq k1 k2 = true ->
+  let slot := hm_slot (key_hash H) in
+  sfind slot k1 s = sfind slot k2 s /\
+  sremove slot k1 s = sremove slot k2 s /\
+  (forall v, smem slot k1 s = true -> sset slot k1 v s = sset slot k2 v s) /\
+  (forall v, smem slot k1 s = false -> sset slot k1 v s = s ++ [(k1, v)] /\ sset slot k2 v s = s ++ [(k2, v)]).
+Proof. exact equal_keys_same_entry. Qed.
+Print Assumptions C09_equal_keys_same_entry.
+
+(* keys that compare unequal never collide, whatever the hash function: writing or removing one leaves the entry found
+   for the other untouched *)
+Theorem C09_unequal_keys_never_collide : forall (hash : key -> list token) (V : Type) (s : store V) (k1 k2 : key) (v : V),
+  wf_store s -> wf_key k1 -> wf_key k2 -> key_eq k1 k2 = false ->
+  let slot := hm_slot hash in
+  sfind slot k2 (sset slot k1 v s) = sfind slot k2 s /\
+  sfind slot k2 (sremove slot k1 s) = sfind slot k2 s.
+Proof. exact unequal_keys_never_collide. Qed.
+Print Assumptions C09_unequal_keys_never_collide.
+
+(* the specification really is a finite map on ==-classes: a read after a write through an equal key sees the value;
+   the size grows exactly when the key is new; after a removal the class is absent *)
+Theorem C09_map_laws : forall (V : Type) (s : store V) (k k' : key) (v : V),
+  wf_store s -> wf_key k -> wf_key k' -> key_eq k k' = true ->
+  sget key_eq k' (sset key_eq k v s) = Some v /\
+  length (sset key_eq k v s) = (if smem key_eq k s then length s else S (length s)) /\
+  (nodupk key_eq s -> sget key_eq k' (sremove key_eq k s) = None).
+Proof.
+  intros V s k k' v Hs Hk Hk' He.
+  exact (conj (sget_sset_same s k k' v Hs Hk Hk' He)
+              (conj (sset_length s k v) (fun Hn => sget_sremove_same s k k' Hs Hk Hk' Hn He))).
+Qed.
+Print Assumptions C09_map_laws.
+
+(* every history keeps the stored keys valid and pairwise unequal (one entry per ==-class) *)
+Theorem C09_history_keeps_one_entry_per_class : forall (V : Type) (vnull : V) (vadd : V -> V -> outcome V)
+    (veq : V -> V -> bool) (ops : list (op V)) (d : dict V),
+  (wf_store (fst d) /\ nodupk key_eq (fst d)) -> Forall wf_op ops ->
+  let s' := fst (snd (run vnull vadd veq key_eq d ops)) in wf_store s' /\ nodupk key_eq s'.
+Proof. exact run_inv. Qed.
+Print Assumptions C09_history_keeps_one_entry_per_class.
+
+(* non-vacuity: the hypotheses are met by ordinary keys of different numeric levels, nested, and the functions compute *)
+Example C09_nonvacuous :
+  let k1 := KList [KNum (NInt 1); KDict [(KNum (NRat (1 # 2)), KNum (NInt (2 ^ 64)))]] in
+  let k2 := KList [KNum (NComplex f_one f64_zero); KDict [(KNum (NFloat f_half), KNum (NFloat f_2p64))]] in
+  wf_key k1 /\ wf_key k2 /\ key_eq k1 k2 = true /\ k1 <> k2 /\
+  key_hash_real k1 = key_hash_real k2 /\
+  key_eq k1 (KList [KNum (NInt 1); KDict []]) = false /\
+  fst (run None zadd zeq (hm_slot key_hash_real) ([], None) [OSet k1 (Some 5%Z); OGet k2; OLen]) = [ODone; OVal (Some 5%Z); ONat 1].
+Proof.
+  cbv zeta. repeat split; try (vm_compute; reflexivity); try discriminate; try exact I;
+    try (intros ? ? []); try (vm_compute; intuition discriminate).
+Qed.
